@@ -134,7 +134,7 @@ enum Probe {
     PR_RESULT_EQUALS_SOURCE, PR_SELF_REFERENTIAL, PR_SOURCE_MUTATED_AFTER_DERIVE, PR_RESULT_DESTROYED_BEFORE_SOURCE,
     PR_THROW_WITH_HEAP_TARGET, PR_THROW_WITH_HEAP_RVALUE, PR_THROW_THEN_REUSED,
     PR_FAULT_ALLOCATE_AFTER_RELEASE, PR_FAULT_VECTOR_GROWTH, PR_FAULT_EXCEPTION_CTOR, PR_FAULT_TARGET_EMPTY_AFTER, PR_FAULT_TARGET_OLD_AFTER,
-    PR_FAULT_STREAM_GROWTH, PR_FAULT_STD_FUNCTION, PR_SS_TOPPED_UP, PR_RETAINED_BY_STATIC, PR_STEP_ON_HELPER_THREAD,
+    PR_FAULT_STREAM_GROWTH, PR_FAULT_STD_FUNCTION, PR_SS_TOPPED_UP, PR_RETAINED_BY_STATIC, PR_STEP_ON_HELPER_THREAD, PR_RETRY_AFTER_BAD_ALLOC,
     PR__COUNT
 };
 const char *probe_name(int i);
